@@ -56,6 +56,12 @@ func (f *FuncVC) call(st *State, x *ssa.Call) *Val {
 	for _, a := range c.Args {
 		args = append(args, f.val(st, a))
 	}
+	if !c.IsInvoke() && c.StaticCallee() == nil {
+		// call through a function value: a nil function value panics
+		if fv := f.val(st, c.Value); fv != nil && fv.K == KFunc && fv.Fn == nil && fv.T != "" {
+			f.oblige(st, "nil", f.srcAt(x.Pos()), not(eq(fv.T, "0")))
+		}
+	}
 	if con := f.contractFor(c); con != nil {
 		return f.applyContract(st, x, con, args)
 	}
